@@ -410,6 +410,11 @@ def _unique_match(run: Run, fi: FuncInfo, mod) -> None:
             for st, v in _assignments(fi, x.id):
                 if isinstance(v, ast.Subscript) and isinstance(v.value, ast.Name) and isinstance(v.slice, ast.Constant) and v.slice.value == 0:
                     mvar = v.value.id
+            if mvar is None:
+                # `(x,) = matches` / `[x] = matches`: unpacking of exactly one element
+                for a in walk_no_nested(fi.node):
+                    if isinstance(a, ast.Assign) and len(a.targets) == 1 and isinstance(a.targets[0], (ast.Tuple, ast.List)) and len(a.targets[0].elts) == 1 and is_name(a.targets[0].elts[0], x.id) and isinstance(a.value, ast.Name):
+                        mvar = a.value.id
         elif isinstance(x, ast.Subscript) and isinstance(x.value, ast.Name):
             mvar = x.value.id
         conds = branch_conditions(cfg, rn.id)
@@ -643,7 +648,7 @@ def _inline_meta_casefold(run: Run, res: Resolver, am: AstModel) -> None:
             n_meta += 1
             key = node.slice
             nodes = cfg.node_for_stmt_containing(node)
-            conds = [c for x in nodes for c in branch_conditions(cfg, x)]
+            conds = [c for x in nodes for c in atomic_conditions(cfg, x)]  # (`not A or B` false is A and not B)
             # current = doc.meta.get(key); isinstance(current, str) true  => key exists
             cur = None
             for t, val in conds:
